@@ -8,6 +8,7 @@ line formats (shared with lean/Driver.lean)
 """
 import copy
 import pickle
+import sys
 import zlib
 
 from lib import frame, fletcher, nmea as nmea_sentence
@@ -44,7 +45,24 @@ class NamedCID(UbxCID):
         self.name = name
 
 
-def parse_cids(s):
+_ALT = []
+
+
+def alt_cid_class():
+    """the UbxCID class once more, as a second class object: cid.py loaded under another module name (a vendored copy beside the
+    package, a reload) - its instances say the same class/ids"""
+    if not _ALT:
+        import importlib.util
+        import ubxlib.cid as orig
+        spec = importlib.util.spec_from_file_location('vendored_cid', orig.__file__)
+        mod = importlib.util.module_from_spec(spec)
+        sys.modules['vendored_cid'] = mod            # (importable by name, as a vendored copy is: pickle looks classes up there)
+        spec.loader.exec_module(mod)
+        _ALT.append(mod.UbxCID)
+    return _ALT[0]
+
+
+def parse_cids(s, same_class=False):
     """class/ids as the caller may hold them: plain, of a subclass that carries a name, or tagged after construction - which one
     depends on the text (and repeats on a replay); to a filter they are the same class/ids"""
     out = []
@@ -53,6 +71,8 @@ def parse_cids(s):
         k = (zlib.crc32(s.encode()) + n) % 6
         if k == 0:
             cid = NamedCID(c, i, f'MSG-{c:02X}-{i:02X}')
+        elif k == 2 and not same_class:        # (set_filter() itself insists on its own class: isinstance)
+            cid = alt_cid_class()(c, i)
         elif k == 1:
             cid = UbxCID(c, i)
             cid.label = 'mine'
@@ -62,12 +82,22 @@ def parse_cids(s):
     return out
 
 
-FEED = 'PALMIGO'      # process() given bytes / bytearray / list / memoryview / iterator / generator: any iterable of byte values;
+FEED = 'PALMIGOZ'     # Z<hex>~<hex>: ONE process() call over a lazy source that calls restart() between the two parts - the same as
+                      # two calls with restart() between them. process() given bytes / bytearray / list / memoryview / iterator / generator: any iterable of byte values;
                       # O<n>:<hex>: process(bytes) with ANOTHER parser object parsing a frame of its own at the n-th line executed
 
 
 def feed_bytes(op):
+    if op[0] == 'Z':
+        return bytes.fromhex(op[1:].replace('~', ''))
     return bytes.fromhex(op[1:].split(':')[1] if op[0] == 'O' else op[1:])
+
+
+def lazy_with_restart(p, op):
+    a, b = op[1:].split('~')
+    yield from bytes.fromhex(a)
+    p.restart()
+    yield from bytes.fromhex(b)
 
 
 def meanwhile_ubx():
@@ -113,7 +143,9 @@ class UbxRun:
         p, out, handed = self.p, self.out, self.handed
         try:
             if op[0] in FEED:
-                if op[0] == 'O':
+                if op[0] == 'Z':
+                    p.process(lazy_with_restart(p, op))
+                elif op[0] == 'O':
                     realenv.interleaved(lambda: p.process(feed_bytes(op)), int(op[1:].split(':')[0]), meanwhile_ubx)
                 else:
                     p.process(as_container(op[0], feed_bytes(op)))
@@ -151,7 +183,7 @@ class UbxRun:
             elif op[0] == 'F':
                 p.set_filters(parse_cids(op[1:]))
             elif op[0] == 'S':
-                p.set_filter(parse_cids(op[1:])[0])
+                p.set_filter(parse_cids(op[1:], same_class=True)[0])
             else:
                 out.append('bad-op')
         except Exception as e:
@@ -177,7 +209,9 @@ class NmeaRun:
             return
         try:
             if op[0] in FEED:
-                if op[0] == 'O':
+                if op[0] == 'Z':
+                    self.p.process(lazy_with_restart(self.p, op))
+                elif op[0] == 'O':
                     realenv.interleaved(lambda: self.p.process(feed_bytes(op)), int(op[1:].split(':')[0]), meanwhile_nmea)
                 else:
                     self.p.process(as_container(op[0], feed_bytes(op)))
@@ -329,10 +363,25 @@ def scan_pos(s, maxlen=MAXLEN):
     return Scanner(maxlen).feed(bytes(s))
 
 
+def expand_z(line):
+    """Z<a>~<b> said with the ops the reference knows: P<a>;R;P<b>"""
+    if ';Z' not in line and '|Z' not in line:
+        return line
+    kind, ops = line.split('|', 1)
+    out = []
+    for o in ops.split(';'):
+        if o and o[0] == 'Z':
+            a, b = o[1:].split('~')
+            out += ['P' + a, 'R', 'P' + b]
+        else:
+            out.append(o)
+    return kind + '|' + ';'.join(out)
+
+
 def spec_ubx(line):
     """expected output of a `ubx|` line: the stream is cut at every restart, each piece is scanned as a whole,
     a valid frame is queued iff its class/id is in the filter in force when its last byte is processed"""
-    ops = line.split('|', 1)[1].split(';')
+    ops = expand_z(line).split('|', 1)[1].split(';')
     out, queue, rx = [], [], 0
     filt = None
     sc = Scanner()
@@ -367,7 +416,7 @@ def show_events(s):
 
 
 def features_ubx(line):
-    ops = line.split('|', 1)[1].split(';')
+    ops = expand_z(line).split('|', 1)[1].split(';')
     first_p = next((i for i, o in enumerate(ops) if o[0] in FEED), len(ops))
     mid = ops[first_p:]
     stream = b''.join(feed_bytes(o) for o in ops if o[0] in FEED)
@@ -387,7 +436,7 @@ def occurrence_check(line, real_out):
     """first sentence of C03, checked literally: every delivered data packet is the class/id and payload of a
     distinct, non-overlapping, checksum-valid occurrence in the input, in stream order, and was in the filter.
     (only for lines without restart / empty_queue / filter changes after the first chunk)"""
-    ops = line.split('|', 1)[1].split(';')
+    ops = expand_z(line).split('|', 1)[1].split(';')
     stream = b''.join(feed_bytes(o) for o in ops if o[0] in FEED)
     filt = None
     for o in ops:
@@ -488,7 +537,7 @@ def nmea_count(s):
 def oracles_nmea(line, real_out):
     if line.startswith('nmeail|'):
         return oracles_interleaved('nmea', oracles_nmea, line, real_out)
-    ops = line.split('|', 1)[1].split(';')
+    ops = expand_z(line).split('|', 1)[1].split(';')
     pieces, seg = [], bytearray()
     for o in ops:
         if o[0] in FEED:
@@ -528,6 +577,11 @@ def pick_cid(rng):
     return (rng.choice([0x24, 0x2a, 0x62, 0xb5, 0x00, 0xff, rng.randrange(256)]), rng.choice([0x24, 0x2a, 0x62, 0xb5, 0x00, 0xff, rng.randrange(256)]))
 
 
+def quoting_payload(rng):
+    """a payload that quotes text: a complete valid sentence, a sentence cut short, sync characters"""
+    return rng.choice([b'$GPGGA,1*52\r\n', b'$GP*17\r\n', b'note $GNTXT,01,01,02,ANT', long_sentence(rng)[:300], b'\xb5\x62\x05\x01'])
+
+
 def rand_payload(rng, n):
     mode = rng.random()
     if mode < 0.15:
@@ -557,6 +611,13 @@ def gap(rng):
         g = nmea_sentence(b'GPRMC,1') + b'\r\n'
     elif k < 0.7:
         g = b'\xb5\xb5\xb5'
+    elif k < 0.8:
+        # a sentence cut short - no '*', no line end (the receiver was reset in the middle of its start-up banner, a UART overrun
+        # dropped the tail): whatever kind it is, it is filler, and the frame behind it counts
+        whole = rng.choice([b'$GNTXT,01,01,02,u-blox AG - www.u-blox.com*4E', b'$GPTXT,01,01,02,HW UBX-M8030 00080000*60', b'$GPGGA,092725.00,4717.11399,N,00833.91590,E,1,08,1.01,499.6,M,48.0,M,,*5B',
+                            b'$GNRMC,083559.00,A,4717.11437,N,00833.91522,E,0.004,77.52,091202,,,A,V*57', b'$PUBX,00,081350.00,4717.113210,N,00833.915187,E,546.589,G3,2.1,2.0,0.007,77.52,0.007,,0.92,1.19,0.77,9,0,0*5F',
+                            b'$GLGSV,1,1,00*65', b'$BDTXT,01,01,02,ANTSTATUS=OK*3F'])
+        g = whole[:rng.randrange(1, len(whole))]
     else:
         g = bytes(rng.randrange(256) for _ in range(rng.randrange(1, 12)))
     return g.replace(b'\xb5\x62', b'\xb5\x63')
@@ -575,7 +636,7 @@ def grammar_stream(rng, allow_long=False):
         if n > MAXLEN:
             out += b'\xb5\x62' + bytes([c, i, n & 0xff, n >> 8])     # six header bytes; what follows is the next item
             continue
-        f = bytearray(frame(c, i, rand_payload(rng, n)))
+        f = bytearray(frame(c, i, rand_payload(rng, n) if rng.random() > 0.05 else quoting_payload(rng)))
         if rng.random() < 0.2:
             k = rng.choice([2, 3] + list(range(6, len(f))))          # class, id, payload or checksum; not the length
             f[k] ^= 1 << rng.randrange(8)
@@ -617,10 +678,23 @@ def chunkings(rng, data):
         out.append(data[i:i + n])
         i += n
     yield 'rand', out
+    # a reader that polls without blocking: runs of empty reads (ten, thirty in a row) anywhere, in the middle of a frame too
+    out, i = [], 0
+    while i < len(data):
+        n = rng.choice([1, 2, 5, 40])
+        out.append(data[i:i + n])
+        if rng.random() < 0.3:
+            out += [b''] * rng.choice([1, 9, 10, 11, 30])
+        i += n
+    yield 'idle', out[:400]
 
 
 def filt_op(rng):
     k = rng.random()
+    if k < 0.03:
+        # a filter with numbers that do not fit a byte (a 16-bit message number not masked): entries that match no frame
+        c, i = rng.choice(CIDS)
+        return 'F' + ','.join(rng.sample([f'{c}:{i + 256 * rng.randrange(1, 5)}', f'{c + 256}:{i}', f'{c}:{i}', f'{c & 1}:{(c >> 1) * 256 + i}', f'{i}:{c * 256}'], rng.randrange(1, 4)))
     if k < 0.06:
         # a filter naming arbitrary class/ids
         return 'F' + ','.join(f'{rng.choice([0x24, 0x62, 0xb5, 0, 255, rng.randrange(256)])}:{rng.choice([0x24, 0x62, 0xb5, 0, 255, rng.randrange(256)])}'
@@ -685,6 +759,19 @@ def with_meanwhile(rng, ln):
     return kind + '|' + ';'.join(ops)
 
 
+def with_lazy_restart(rng, ln):
+    """one chunk comes from a lazy source that calls restart() on the parser between two of its bytes"""
+    kind, ops = ln.split('|', 1)
+    ops = ops.split(';')
+    idx = [k for k, o in enumerate(ops) if o[0] == 'P' and len(o) > 4]
+    if idx:
+        k = rng.choice(idx)
+        h = ops[k][1:]
+        cut = 2 * rng.randrange(1, len(h) // 2)
+        ops[k] = 'Z' + h[:cut] + '~' + h[cut:]
+    return kind + '|' + ';'.join(ops)
+
+
 def with_time(rng, ln):
     """time passes between two calls - a second, an hour, a year - or the wall clock is stepped back (a host that sets its
     clock from the receiver it is talking to)"""
@@ -722,6 +809,8 @@ def gen_ubx(rng, n, profile):
             ln = with_copies(rng, ln)
         if rng.random() < 0.1:
             ln = with_meanwhile(rng, ln)
+        if rng.random() < 0.06 and profile in ('chunks', 'ops', 'mixed'):
+            ln = with_lazy_restart(rng, ln)
         yield ln
         if rng.random() < 0.2 and len(ln) < 4000:
             hold.append(ln)
@@ -823,6 +912,8 @@ def gen_nmea(rng, n, profile):
             ln = with_copies(rng, ln)
         if rng.random() < 0.1:
             ln = with_meanwhile(rng, ln)
+        if rng.random() < 0.06 and profile in ('chunks', 'ops', 'mixed'):
+            ln = with_lazy_restart(rng, ln)
         yield ln
         if rng.random() < 0.2 and len(ln) < 4000:
             hold.append(ln)
@@ -886,7 +977,8 @@ def exhaustive_nmea_transitions():
 
 # ---- UbxCID: equality, hash, membership (what the filter and the frame registry rest on) -----------------------
 CID_GRID = [(c, i) for c in (0, 1, 2, 3, 4, 5, 6, 8, 0x0a, 0x0c, 0x10, 0x13, 0x14, 0x28, 0x62, 0xb5, 0xff)
-            for i in (0, 1, 2, 3, 4, 7, 8, 9, 0x10, 0x14, 0x3e, 0x60, 0x62, 0xff)]
+            for i in (0, 1, 2, 3, 4, 7, 8, 9, 0x10, 0x14, 0x3e, 0x60, 0x62, 0xff)] + \
+    [(5, 0x501), (0x105, 1), (1, 0x407), (0, 0x100), (1, 0x100), (0x100, 0), (5, 0x10001), (0x605, 0x801)]     # numbers that do not fit a byte
 
 
 def real_cid(line):
